@@ -309,6 +309,28 @@ def run(item, ctx, tier, seed):
                             compare_bands(ctx, case, src, r, [src, src], alpha, method)
                             if alpha == b["alphas"][(si + rot) % len(b["alphas"])]:
                                 exact_envelope(ctx, case, src, r, alpha, cfgobj)
+        # ---------------- an object with a query history gives the bands a fresh equal object gives
+        warmed = Scores(pos[::-1], neg[::-1], nb_easy_pos=ep, nb_easy_neg=en, score_class=sc, equal_class=ec)
+        for wname, wcall in (("threshold_at_topr", lambda o: o.threshold_at_topr(0.3)), ("threshold_at_tonr", lambda o: o.threshold_at_tonr(np.array([0.2, 0.6]))),
+                             ("threshold_at_acceptance_rate", lambda o: o.threshold_at_acceptance_rate(0.5)), ("eer", lambda o: o.eer()),
+                             ("auc", lambda o: o.auc()), ("threshold_at_fnr", lambda o: o.threshold_at_fnr(0.25))):
+            guarded(ctx, "warm-up", dict(base, query=wname), wcall, warmed)
+        for si, spec in enumerate(SUPPLY[:2]):
+            kw = _supply_kwargs(spec, vals)
+            alpha, method = b["alphas"][0], b["methods"][(si + rot) % 3]
+            cfgobj = BootstrapConfig(nb_samples=2, bootstrap_method=method, sampling_method=ident)
+            for fname, f in (("roc_with_ci", roc_with_ci), ("pointwise_band_ci", pointwise_band_ci)):
+                case = dict(base, function=fname, supply=spec, alpha=alpha, method=method, sampler="identity",
+                            history="topr/tonr/acceptance-rate thresholds, eer, auc, fnr threshold queried first")
+                ok1, r1 = guarded(ctx, fname, case, lambda: f(warmed, nb_points=b["nb_points"][0], alpha=alpha, config=cfgobj, **kw))
+                ok2, r2 = guarded(ctx, fname, case, lambda: f(src, nb_points=b["nb_points"][0], alpha=alpha, config=cfgobj, **kw))
+                ctx.tick()
+                ctx.state()
+                if ok1 and ok2:
+                    for fld in ("thresholds", "fnr", "fpr", "fnr_ci", "fpr_ci"):
+                        if not np.array_equal(np.asarray(getattr(r1, fld)), np.asarray(getattr(r2, fld)), equal_nan=True):
+                            ctx.fail("bands-independent-of-query-history", dict(case, field=fld), observed=getattr(r1, fld), expected=getattr(r2, fld))
+                            break
         # ---------------- experimental functions, identity sampler
         for si, spec in enumerate(SUPPLY):
             kw = _supply_kwargs(spec, vals)
